@@ -12,6 +12,16 @@ func NewMapOfWithHasher[K comparable, V any](h func(K, uint64) uint64, presize i
 	return xsync.NewMapOfWithHasher[K, V](h, xsync.WithPresize(presize))
 }
 
+// NewMapGrowOnly / NewMapOfGrowOnly build maps with the internal grow-only
+// option (no public constructor passes it; the properties hold for it too).
+func NewMapGrowOnly(presize int) cache.Map {
+	return xsync.NewMap(xsync.WithPresize(presize), xsync.WithGrowOnly())
+}
+
+func NewMapOfGrowOnly[K comparable, V any](presize int) cache.MapOf[K, V] {
+	return xsync.NewMapOf[K, V](xsync.WithPresize(presize), xsync.WithGrowOnly())
+}
+
 // SetMinTableLen sets the minimal-table-length knob; false if the knob could
 // not be lifted in this tree.
 func SetMinTableLen(n int) bool { return xsync.VerifSetMinTableLen(n) }
